@@ -506,6 +506,26 @@ func c07Oracle(res *Result, w *C07W, h *H1, plugs []*Plug, outs []*c07Out, fired
 				order = append(order, en.Plugin)
 			}
 		}
+		// invocation order within the request is index order, also after plugins were dropped
+		var healthyOrder []string
+		idxOf := map[string]string{}
+		for k, p := range w.Plugins {
+			idxOf[p.Name] = p.Idx
+			_ = k
+		}
+		for _, name := range order {
+			for k, p := range w.Plugins {
+				if p.Name == name && status[k] == stCounted {
+					healthyOrder = append(healthyOrder, name)
+				}
+			}
+		}
+		for k := 1; k < len(healthyOrder); k++ {
+			if idxOf[healthyOrder[k-1]] > idxOf[healthyOrder[k]] {
+				res.Violate("C07.index-order", "request %s (%s): surviving plugins were invoked in order %v, not by index (%s-%s before %s-%s)", id, rq.Event, healthyOrder,
+					idxOf[healthyOrder[k-1]], healthyOrder[k-1], idxOf[healthyOrder[k]], healthyOrder[k])
+			}
+		}
 		// (c) dropped plugins receive nothing more
 		for k, p := range w.Plugins {
 			if noEntry[k] && invoked[p.Name] > 0 {
